@@ -22,7 +22,7 @@ import time
 
 VERIF = os.path.dirname(os.path.abspath(__file__))
 REPO = os.environ.get("VERIF_REPO", "/repo")
-BUILD = os.path.join(VERIF, ".build" if REPO == "/repo" else ".build-alt")   # VERIF_REPO: trials against a scratch copy of the repository
+BUILD = os.path.join(VERIF, ".build" if REPO == "/repo" else ".build-alt" + os.environ.get("VERIF_BUILD_TAG", ""))   # VERIF_REPO: trials against a scratch copy of the repository
 EVID = os.environ.get("VERIF_EVID_DIR") or os.path.join(VERIF, "evidence")
 REPLAYS = os.path.join(VERIF, "replays")
 NCPU = os.cpu_count() or 4
